@@ -22,6 +22,7 @@ package main
 // reported as `timeout`, never a hang of the harness.
 
 import (
+	"io"
 	"context"
 	"errors"
 	"fmt"
@@ -451,6 +452,66 @@ func c12Case(g *Gen, k, L int, perm []int, n *big.Int, kinds []int) {
 	}
 }
 
+// c12Named is an un-instrumented algorithm whose name may coincide with another's: the executor must
+// treat list positions, not names, as identities.
+type c12Named struct {
+	name  string
+	chain addchain.Chain
+	err   error
+}
+
+func (a *c12Named) String() string { return a.name }
+
+func (a *c12Named) FindChain(n *big.Int) (addchain.Chain, error) {
+	if a.err != nil {
+		return nil, a.err
+	}
+	return a.chain.Clone(), nil
+}
+
+// c12Names runs k algorithms with the given (colliding) names and distinct results under limit L and
+// compares slot by slot with executing each alone:
+//
+//	c12n <k> <L> <names, comma separated> <results-equal> <ok|panic|timeout>
+func c12Names(g *Gen, k, L int, names []string, kinds []int) {
+	n := c12Target(g)
+	as := make([]alg.ChainAlgorithm, k)
+	for i := 0; i < k; i++ {
+		a := &c12Named{name: names[i]}
+		a.chain, a.err = c12Chain(n, i, kinds[i])
+		as[i] = a
+	}
+	seq := make([]acexec.Result, k)
+	for i := range as {
+		seq[i] = acexec.Execute(n, as[i])
+	}
+	p := acexec.NewParallel()
+	p.SetConcurrency(L)
+	p.SetLogger(log.New(io.Discard, "", 0))
+	done := make(chan string, 1)
+	var rs []acexec.Result
+	go func() { done <- safe(func() { rs = p.Execute(n, as) }) }()
+	outcome, eq := "ok", false
+	select {
+	case msg := <-done:
+		if msg != "" {
+			outcome = "panic"
+		}
+	case <-time.After(20 * time.Second):
+		outcome = "timeout"
+	}
+	if outcome == "ok" && len(rs) == k {
+		eq = true
+		for i := range rs {
+			if !c12ResultEqual(rs[i], seq[i]) || rs[i].Algorithm != as[i] {
+				eq = false
+			}
+		}
+	}
+	g.Line("c12n", fmt.Sprint(k), fmt.Sprint(L), strings.Join(names, ","), b01(eq), outcome)
+	g.Count("names")
+}
+
 func c12Target(g *Gen) *big.Int {
 	bits := 8 + g.R.Intn(57)
 	n := g.R.Bits(bits)
@@ -518,6 +579,26 @@ func genC12(g *Gen) {
 			p := c12RandPerm(g, k)
 			for L := 1; L <= k+2; L++ {
 				c12Case(g, k, L, p, c12Target(g), c12Kinds(g, k))
+			}
+		}
+	}
+	// colliding names, limits on both sides of k and well above it (a limit larger than the list is the
+	// CLI default on machines with many cores)
+	for k := 1; k <= g.pick(6, 9); k++ {
+		for _, L := range []int{1, 2, 3, k, k + 1, 16, 24, 32, 64, 200} {
+			for pat := 0; pat < 3; pat++ {
+				names := make([]string, k)
+				for i := range names {
+					switch pat {
+					case 0:
+						names[i] = "same"
+					case 1:
+						names[i] = fmt.Sprintf("n%d", i%2)
+					default:
+						names[i] = fmt.Sprintf("n%d", i/2)
+					}
+				}
+				c12Names(g, k, L, names, c12Kinds(g, k))
 			}
 		}
 	}
